@@ -108,6 +108,59 @@ def apply_spelling(gen, ent, site, spelling, target):
     return gen2, ent2
 
 
+def constructed_ambiguity(gen, ent, site, rng):
+    """A copy of the model in which the reference at `site` gets a dedicated, freshly named
+    declaration that is declared on TWO levels of its lookup chain: ambiguous for this site
+    only (no other reference uses the name), so the build must fail exactly because of it.
+    None if the chain offers fewer than two levels where such a declaration can live."""
+    gen2 = copy.deepcopy(gen)
+    ent2 = next(e for e in gen2.components if e[0] == ent[0])
+    if site['site'] == 'port-type':
+        ref = ent2[1].ports[site['port_index']].type
+    else:
+        itf = gen2.interface_by_fqn(site['itf'])
+        ev = itf.events[site['event_index']]
+        ref = ev.reply if site['site'] == 'claim-reply' else ev.formals[site['formal_index']].type
+    decls = gen2.decls()
+    names = {tuple(f) for _k, f, _o in decls}
+    itfs = {tuple(f): o for k, f, o in decls if k == 'interfaces'}
+    scope = list(site['scope'])
+    levels = []
+    for k in range(len(scope), -1, -1):
+        level = tuple(scope[:k])
+        through_decl = any(tuple(level[:m]) in names for m in range(1, len(level) + 1))
+        if through_decl and not (level in itfs and site['kind'] == 'enums'):
+            continue
+        levels.append(level)
+    if len(levels) < 2:
+        return None
+    taken = {f[-1] for f in names}
+    from ..modelgen import fresh  # pylint: disable=import-outside-toplevel
+    name = fresh(rng, taken, 'camel')
+    chosen = rng.sample(levels, 2)
+    for n, level in enumerate(chosen):
+        new = {'externs': M.Extern([name], f'::vx::T{62 + n}'),
+               'interfaces': M.Interface([name]),
+               'enums': M.Enum([name], ['Qa', 'Qb'])}[site['kind']]
+        if level in itfs:
+            itfs[level].types.append(new)
+            continue
+        elements = gen2.model.elements
+        for ns in level:
+            found = next((e for e in elements if isinstance(e, M.Namespace) and e.name == [ns]), None)
+            if found is None:
+                found = M.Namespace([ns], [])
+                elements.append(found)
+            elements = found.elements
+        elements.append(new)
+    ref.ids = [name]
+    ref.target = '.'.join(list(max(chosen, key=len)) + [name])
+    hits = M.spec_lookup(M.declared_names(gen2.model), scope, ref.ids)
+    if len(hits) != 2:
+        return None
+    return gen2, ent2, [(k, '.'.join(f)) for k, f, _o in hits], list(ref.ids)
+
+
 def eval_case(case: dict) -> dict:
     """case: {'seed', 'stream', 'compile': bool}: one base model, many re-spellings."""
     common.import_dznpy()
@@ -121,7 +174,9 @@ def eval_case(case: dict) -> dict:
 
     opts_rng = random.Random(rng.random())
     del opts_rng
-    gen, ent, enc, info = cfggen.gen_shell_case(rng, want_multiclient=case['stream'] % 3 == 0)
+    gen, ent, enc, info = cfggen.gen_shell_case(rng, want_multiclient=case['stream'] % 3 == 0,
+                                                mc_shape=case['stream'] // 3,
+                                                name_families=0.5 if case['stream'] % 2 else 0.15)
     # prefer rerouted ports so that formal types are resolved
     if case['stream'] % 2 == 0 and not enc.get('multiclient'):
         enc['provides'] = {'sts': 'NONE', 'mts': 'ALL'}
@@ -240,6 +295,22 @@ def eval_case(case: dict) -> dict:
                 if unique_right:
                     viol(f'build-refused-unique-reference:{exc["type"]}:{site["site"]}',
                          dict(exc, spelling=spelling, scope=site['scope']), sub)
+    # every site once more with a deliberately constructed ambiguity
+    for site in all_sites[:16]:
+        made = constructed_ambiguity(gen, ent, site, rng)
+        if made is None:
+            continue
+        gen2, _ent2, hits, spelling = made
+        doc = M.to_json(gen2.model)
+        sub = {'seed': case['seed'], 'stream': case['stream'], 'site': site, 'spelling': spelling,
+               'doc': doc, 'cfg': enc, 'spec_hits': hits}
+        res = shellbuild.outcome(enc, doc)
+        cnt['constructed_ambiguities'] = cnt.get('constructed_ambiguities', 0) + 1
+        cnt[f'constructed_ambiguity_{site["site"]}'] = cnt.get(f'constructed_ambiguity_{site["site"]}', 0) + 1
+        if 'files' in res:
+            viol(f'build-accepted-reference:several:{site["site"]}',
+                 {'spelling': spelling, 'scope': site['scope'], 'hits': hits, 'constructed': True,
+                  'mc_port': site.get('mc_port', False)}, sub)
     out['digest'] = common.digest([case['seed'], case['stream'], M.to_json(gen.model)])
     out['nontrivial'] = nontrivial
     out['sample'] = {'component': info['fqn'], 'declared': ['.'.join(f) for _k, f, _o in decls][:16],
@@ -254,13 +325,15 @@ def _worker(arg):
 
 def main(tier: str) -> int:
     run = common.Run(PROP, tier)
-    n = 40 if tier == 'quick' else 1000
+    n = 60 if tier == 'quick' else 1000
     n_compile = 6 if tier == 'quick' else 60
     scratch = run.scratch()
     run.require('builds', 'find_fqn_calls_observed', 'emitted_types_checked', 'spec_unique',
                 'spec_several', 'spec_none', 'spec_wrong-kind', 'site_port-type',
                 'site_formal-type', 'site_claim-reply', 'programs_type_checked',
-                'spellings_of_shared_simple_names')
+                'spellings_of_shared_simple_names', 'constructed_ambiguities',
+                'constructed_ambiguity_formal-type', 'constructed_ambiguity_port-type',
+                'constructed_ambiguity_claim-reply')
     jobs = [(run.seed, i, scratch, i < n_compile) for i in range(n)]
     for item, res in run.pmap(_worker, jobs, timeout=3600):
         common.absorb(run, {'seed': item[0], 'stream': item[1]}, res)
